@@ -39,10 +39,39 @@
 class MemLeakScopedMutex
 {
 public:
-    MemLeakScopedMutex() : lock(MemoryLeakWarningPlugin::getGlobalDetector()->getMutex()) { }
+    MemLeakScopedMutex() : mutex_(MemoryLeakWarningPlugin::getGlobalDetector()->getMutex()), locked_(true)
+    {
+        mutex_->Lock();
+        current_ = this;
+    }
+
+    ~MemLeakScopedMutex()
+    {
+        unlock();
+    }
+
+    /* A misuse report leaves the test by longjmp from inside the locked region, so the destructor above never runs:
+     * the reporter gives the lock back before it leaves (and before the failure is printed, which may allocate). */
+    static void unlockWhenHeldByCurrentOverload()
+    {
+        if (current_) current_->unlock();
+    }
+
 private:
-    ScopedMutexLock lock;
+    void unlock()
+    {
+        if (!locked_) return;
+        locked_ = false;
+        current_ = NULLPTR;
+        mutex_->Unlock();
+    }
+
+    SimpleMutex* mutex_;
+    bool locked_;
+    static MemLeakScopedMutex* current_; /* written only while the mutex is held */
 };
+
+MemLeakScopedMutex* MemLeakScopedMutex::current_ = NULLPTR;
 
 static void* threadsafe_mem_leak_malloc(size_t size, const char* file, size_t line)
 {
@@ -545,7 +574,12 @@ public:
     virtual void fail(char* fail_string) CPPUTEST_OVERRIDE
     {
         UtestShell* currentTest = UtestShell::getCurrent();
-        currentTest->failWith(FailFailure(currentTest, currentTest->getName().asCharString(), currentTest->getLineNumber(), fail_string), UtestShell::getCurrentTestTerminatorWithoutExceptions());
+        /* the failure copies fail_string, which lives in the detector's output buffer, while the lock is still held */
+        FailFailure failure(currentTest, currentTest->getName().asCharString(), currentTest->getLineNumber(), fail_string);
+#if CPPUTEST_USE_MEM_LEAK_DETECTION
+        MemLeakScopedMutex::unlockWhenHeldByCurrentOverload();
+#endif
+        currentTest->failWith(failure, UtestShell::getCurrentTestTerminatorWithoutExceptions());
     } // LCOV_EXCL_LINE
 };
 
